@@ -2,7 +2,7 @@ package main
 
 // Registry of checks: which harness runs on which configurations per tier.
 
-const nCoreTables = 24
+const nCoreTables = 28
 
 func curlyOnly(tbl int) bool { return tbl == 2 || tbl == 3 || tbl == 6 || tbl == 18 || tbl == 22 }
 func hasMedia(tbl int) bool  { return tbl == 8 || tbl == 9 }
@@ -103,7 +103,7 @@ func properties() map[string]*propDef {
 		ID: "C18",
 		Items: func(tier string, seed int) []item {
 			var out []item
-			for _, tbl := range []int{0, 1, 7, 8, 9, 10, 15, 16, 19, 21} {
+			for _, tbl := range []int{0, 1, 7, 8, 9, 10, 15, 16, 19, 21, 24, 25, 26, 27} {
 				out = append(out, item{Harness: "H_C18", Cfg: []int{tbl, 0}})
 				if hasMedia(tbl) {
 					out = append(out, item{Harness: "H_C18", Cfg: []int{tbl, 1}})
@@ -111,7 +111,7 @@ func properties() map[string]*propDef {
 			}
 			return out
 		},
-		Bounds:         map[string]interface{}{"path_bytes": 12, "segments": 3, "method_bytes": 7, "content_type_bytes": 6, "accept_bytes": 8, "tables": 10},
+		Bounds:         map[string]interface{}{"path_bytes": 12, "segments": 3, "method_bytes": 7, "content_type_bytes": 6, "accept_bytes": 8, "tables": 14},
 		Assumptions:    commonAssumptions,
 		Rule:           "core tables of the common fragment (literal roots, literal/plain-variable segments) x stage; twin containers (CurlyRouter, RouterJSR311) get the same symbolic request",
 		RequiredCovers: []string{"invoked", "not-invoked"},
@@ -151,14 +151,14 @@ func properties() map[string]*propDef {
 		ID: "C17",
 		Items: func(tier string, seed int) []item {
 			var out []item
-			for _, tbl := range []int{0, 1, 7, 10, 16, 19, 21} {
+			for _, tbl := range []int{0, 1, 7, 10, 16, 19, 21, 24, 25, 26} {
 				for router := 0; router < 2; router++ {
 					out = append(out, item{Harness: "H_C17", Cfg: []int{tbl, router}})
 				}
 			}
 			return out
 		},
-		Bounds:         map[string]interface{}{"path_bytes": 12, "segments": 3, "methods": "all methods of the table plus one foreign method", "tables": 7},
+		Bounds:         map[string]interface{}{"path_bytes": 12, "segments": 3, "methods": "all methods of the table plus one foreign method", "tables": 10},
 		Assumptions:    commonAssumptions,
 		Rule:           "tables of the fragment (literal roots incl. nested, literal/plain-variable segments) x routers; per symbolic URL one dispatch per method, one OPTIONS dispatch through OPTIONSFilter, and a filter-less twin",
 		RequiredCovers: []string{"405", "options-nonempty"},
@@ -197,7 +197,7 @@ func properties() map[string]*propDef {
 		ID: "C06",
 		Items: func(tier string, seed int) []item {
 			cfgs := [][]int{{0, 0, 0, -1, 0}, {1, 1, 1, -1, 0}, {1, 1, 1, 0, 0}, {1, 1, 1, 1, 0}, {1, 1, 1, 2, 0}, {2, 0, 1, -1, 1}, {1, 1, 1, -1, 1}, {0, 1, 1, -1, 1},
-				{1, 1, 1, -1, 2}, {2, 1, 0, 0, 2}, {0, 0, 0, -1, 2}, {2, 2, 2, -1, 0}, {2, 1, 2, 1, 0}}
+				{1, 1, 1, -1, 2}, {2, 1, 0, 0, 2}, {0, 0, 0, -1, 2}, {2, 2, 2, -1, 0}, {2, 1, 2, 1, 0}, {3, 1, 0, -1, 0}, {3, 0, 1, -1, 0}}
 			if tier == "thorough" {
 				cfgs = append(cfgs, []int{2, 2, 2, 0, 0}, []int{2, 2, 2, 3, 0}, []int{2, 2, 2, 5, 0}, []int{2, 2, 2, -1, 1}, []int{2, 2, 2, -1, 2}, []int{3, 3, 3, -1, 0})
 			}
@@ -323,6 +323,8 @@ func properties() map[string]*propDef {
 				add(0, 10+i)
 				add(0, 10+i, 50+i)
 				add(0, 10+i, 50+i, 70+i)
+				add(0, 10+i, 50+i, 50+i, 70+i)
+				add(0, 10+i, 50+i, 50+i)
 				add(0, 10+i, 90)
 				for j := 0; j < n; j++ {
 					if i == j {
@@ -431,8 +433,8 @@ func properties() map[string]*propDef {
 			for op := 0; op < 4; op++ {
 				for router := 0; router < 2; router++ {
 					for entry := 0; entry < 2; entry++ {
-						for target := 0; target < 2; target++ {
-							out = append(out, item{Harness: "H_C12", Cfg: []int{op, router, entry, target}, Label: "mutator (Add, Remove, Route, RemoveRoute), router, entry (Dispatch/ServeHTTP), request to the changed / another service"})
+						for target := 0; target < 3; target++ {
+							out = append(out, item{Harness: "H_C12", Cfg: []int{op, router, entry, target}, Label: "mutator (Add, Remove, Route, RemoveRoute), router, entry (Dispatch/ServeHTTP), request to the changed service / another service / OPTIONS request through OPTIONSFilter"})
 						}
 					}
 				}
